@@ -7,7 +7,7 @@ ROOT = os.path.dirname(os.path.abspath(__file__))
 recs = [json.loads(l) for l in open(os.path.join(ROOT, "mutation", "results.jsonl"))]
 surv = [r for r in recs if r.get("status") == "SURVIVED" and r.get("suite_pass")]
 
-DISPLAY = [("polynomial/mod.rs", 138, 182), ("matrix/mod.rs", 68, 118), ("tridiagonal.rs", 216, 242), ("vector/mod.rs", 70, 102)]
+DISPLAY = [("banded.rs", 236, 252), ("polynomial/mod.rs", 138, 182), ("matrix/mod.rs", 68, 118), ("tridiagonal.rs", 216, 242), ("vector/mod.rs", 70, 102)]
 NOTES = {
  ('src/matrix/solve.rs', 'fwd0'): 'equivalent: the i = 0 pass of the forward substitution has an empty inner loop',
  ('src/banded.rs', 112): 'equivalent: the pivot search additionally compares the current row with itself',
@@ -54,6 +54,23 @@ def cat(r):
             return 'G. equivalent: rows / cols exchanged in code that runs only on square matrices (the squareness guard, or an equivalent size guard one call deeper with the same panic class, has already passed)', None
         if f.endswith('matrix/operations.rs'):
             return 'G. equivalent: rows / cols exchanged in code that runs only on square matrices (the squareness guard, or an equivalent size guard one call deeper with the same panic class, has already passed)', 'square branch of transpose_in_place / a capacity hint'
+    if op in ('float-x2', 'float-half', 'int+1'):
+        INIT = [('sparse.rs', 323, 326), ('sparse.rs', 344, 344), ('sparse.rs', 387, 397), ('sparse.rs', 454, 458), ('sparse.rs', 509, 509), ('sparse.rs', 527, 531),
+                ('sparse.rs', 549, 549), ('sparse.rs', 24, 24), ('sparse.rs', 69, 69), ('sparse.rs', 82, 82), ('banded.rs', 152, 152), ('banded.rs', 173, 173),
+                ('matrix/arithmetic.rs', 120, 120), ('matrix/functions.rs', 72, 72), ('matrix/functions.rs', 94, 94), ('vector/vec_f64.rs', 9, 9), ('vector/vec_f64.rs', 21, 21),
+                ('vector/vec_f64.rs', 64, 64), ('mesh1d.rs', 106, 106), ('tridiagonal.rs', 128, 128), ('polynomial/mod.rs', 279, 279)]
+        for fn, a, b in INIT:
+            if f.endswith(fn) and a <= l <= b:
+                return 'H. equivalent: initial value (or spare capacity) of a work vector / solver scalar that is overwritten before its first use', None
+        if f.endswith('sparse.rs') and l in (408, 435, 552, 553, 576, 579, 598):
+            return 'I. exact-breakdown test of an iterative solver (`x == 0.0` for an inner product or norm): differs only when that quantity is exactly 0 (or exactly the mutated value) — NOT REACHED by the generators, recorded', None
+        if f.endswith('mesh1d.rs') and l in (73, 74):
+            return 'F. analysed individually', 'width of the node-snapping window of the interpolation: only positions within 2e-7 of a node are affected, outside the claimed positions (>= 1e-6 from every node)'
+        if f.endswith('polynomial/mod.rs') and l == 237: return 'F. analysed individually', 'equivalent: in the triple-root branch all three values are equal'
+        if f.endswith('polynomial/mod.rs') and l == 316: return 'F. analysed individually', 'table of fractional Laguerre steps: entry 0 is never used, the others only when an iteration cycles (every 10th step)'
+        if f.endswith('polynomial/arithmetic.rs') and l in (171, 172, 185): return 'F. analysed individually', NOTES[('src/polynomial/arithmetic.rs', 186)]
+        if f.endswith('traits.rs'): return 'F. analysed individually', 'equivalent: abs of an integer compares with 1 instead of 0, which differs only for 0 = -0'
+        if f.endswith('sparse.rs') and l == 342: return 'F. analysed individually', NOTES[('src/sparse.rs', 342)]
     if f.endswith('matrix/solve.rs') and op == 'range0->1':
         return 'F. analysed individually', NOTES[('src/matrix/solve.rs', 'fwd0')]
     n = NOTES.get((f, l))
@@ -68,7 +85,7 @@ comp = [r for r in recs if r.get('status') != 'no-compile']
 sp = [r for r in comp if r.get('suite_pass')]
 with open(os.path.join(ROOT, 'mutation', 'SURVIVORS.md'), 'w') as f:
     f.write("# Suite-passing mutants that no quick check notices — classification\n\n")
-    f.write(f"{len(recs)} mutants run (35 operators, two batches), {len(comp)} compile, {len(sp)} pass the crate's own 236 tests; of these "
+    f.write(f"{len(recs)} mutants run (38 operators, three batches), {len(comp)} compile, {len(sp)} pass the crate's own 236 tests; of these "
             f"{len(sp) - len(surv)} are reported by a quick check ({sum(1 for r in sp if r.get('detected_with_input'))} with a failing input) "
             f"and {len(surv)} are not. Each of the {len(surv)} is accounted for below (tools_mutation_classify.py).\n\n")
     for c in sorted(cats):
